@@ -171,6 +171,59 @@ func main() {
 							emit(fn, "demorgan", s.Cond.Pos(), s.Cond.End(), "!(!("+txt(be.X.Pos(), be.X.End())+") "+other+" !("+txt(be.Y.Pos(), be.Y.End())+"))")
 						}
 					}
+				case *ast.RangeStmt:
+					if want["rangetoindex"] && s.Tok == token.DEFINE && s.Key != nil {
+						// for k, v := range xs {…}  ->  for k := 0; k < len(xs); k++ { v := xs[k]; … }
+						// (only when xs is a plain name or field path that the body does not assign)
+						kid, ok := s.Key.(*ast.Ident)
+						pure := true
+						var chk func(e ast.Expr)
+						chk = func(e ast.Expr) {
+							switch x := e.(type) {
+							case *ast.Ident:
+							case *ast.SelectorExpr:
+								chk(x.X)
+							default:
+								pure = false
+							}
+						}
+						chk(s.X)
+						if ok && kid.Name != "_" && pure {
+							xs := string(src[off(s.X.Pos()):off(s.X.End())])
+							assigned := false
+							ast.Inspect(s.Body, func(m ast.Node) bool {
+								switch a := m.(type) {
+								case *ast.AssignStmt:
+									for _, l := range a.Lhs {
+										t := string(src[off(l.Pos()):off(l.End())])
+										if t == xs || t == kid.Name || strings.HasPrefix(xs, t+".") {
+											assigned = true
+										}
+									}
+								case *ast.IncDecStmt:
+									if t := string(src[off(a.X.Pos()):off(a.X.End())]); t == kid.Name {
+										assigned = true
+									}
+								case *ast.BranchStmt:
+									// `continue` would skip nothing here (the post statement still runs), fine
+								}
+								return true
+							})
+							if !assigned {
+								hdr := "for " + kid.Name + " := 0; " + kid.Name + " < len(" + xs + "); " + kid.Name + "++ {"
+								if vid, ok := s.Value.(*ast.Ident); ok && vid.Name != "_" {
+									hdr += " " + vid.Name + " := " + xs + "[" + kid.Name + "];"
+								} else if s.Value != nil {
+									if _, isBlank := s.Value.(*ast.Ident); !isBlank {
+										hdr = ""
+									}
+								}
+								if hdr != "" {
+									emit(fn, "rangetoindex", s.For, s.Body.Lbrace+1, hdr)
+								}
+							}
+						}
+					}
 				case *ast.ForStmt:
 					if want["bound"] && s.Cond != nil {
 						boundMuts(s.Cond, func(b *ast.BinaryExpr, repl string) {
